@@ -274,7 +274,8 @@ def fcbo(model, R, key, S_):
     pushes = [n for n in walk(f.body) if isinstance(n, ast.Call) and chain(n.func) == [stack, 'append']]
     if len(pushes) != 1:
         if not pushes:
-            R.bad(rule, func, f, f'{tag}: accepted concept is pushed', f'{stack}.append((concept, j + 1, table))', 'no push')
+            from .common import absent
+            absent(model, R, rule, func, f, f'{tag}: accepted concept is pushed', f'{stack}.append((concept, j + 1, table))', 'no push')
             return
         raise Unrecognised('more than one push', func=func, node=f)
     push = pushes[0]
